@@ -53,6 +53,8 @@ def gen_cases(tier, seed):
         cases.append({"kind": "converse", "bseed": rng.randrange(1 << 48), "count": 60})
     cases.append({"kind": "f5", "bseed": 0})
     rng.shuffle(cases)
+    # regression corpus of finding F14 (fixed in /repo): the 16 one-byte empty blocks x capacity 0; runs first
+    cases.insert(0, {"kind": "f14", "bseed": 14})
     return cases
 
 def worker_init(ctx):
@@ -263,6 +265,25 @@ def run_case(st, case):
                 blk = bytes(rng.choice([0, 1, 0x0f, 0x10, 0xf0, 0xff, rng.randrange(256)]) for _ in range(n))
                 Dlen = rng.choice([0, 10, 100, 1000])
             check_converse(st, rng, res, blk, hist, Dlen)
+    elif kind == "f14":
+        for tok in range(16):
+            blk = bytes([tok])
+            D = spec(st["spec"], "strict", b"", blk)
+            if D != b"":
+                fail(res, "harness_error", "specification does not accept the one-byte empty block", blk=blk.hex())
+                continue
+            for hs in (0, 8):
+                check_valid_block(st, rng, res, blk, b"", get_hist(st, rng, hs), 0, "emptytok")
+            for bname, dec in st["libs"].items():
+                for api, h in (("safe", b""), ("dict_p", b"abcdefgh"), ("dict_x", b"abcdefgh")):
+                    r, img, perr = dec.run1(api, blk, 1, 0, 0, h, 0)
+                    res["evals"] += 1
+                    if r != 0:
+                        fail(res, "prop_fail", "valid empty block (token 0x%02x) with dstCapacity 0: %s returned %d (expected 0)" % (tok, api, r),
+                             blk=blk.hex(), api=api, cap=0, build=bname)
+                    mr, mok, mimg = model1(st["oracle"], bname == "fast1", api, blk, 1, 0, 0, h, 0)
+                    if mr != r:
+                        fail(res, "corr_fail", "model/code disagree on the empty block 0x%02x at capacity 0: model %d code %d" % (tok, mr, r), blk=blk.hex(), build=bname)
     elif kind == "f5":
         # the recorded witness of finding F5 (theorem C05_success_sound_strict_refuted): must still be what the model predicts
         for bname, dec in st["libs"].items():
